@@ -120,7 +120,9 @@ Definition rejected_obs (ds : string) (e : exn) : bool := match resolve ds with 
             swapped = first.replace("_", "-", 1)          # a hyphen directly after the family word
             for spelling in dict.fromkeys((name, first, name.replace("_", "-"), swapped)):
                 for unpack in (False, True):
-                    cases.append({"name": spelling, "doc": name, "family": fam, "unpack": unpack, "env": True})
+                    # for the documented spelling: the same name asked again with the other value of the unpack flag (the
+                    # second answer comes from what the first request left behind)
+                    cases.append({"name": spelling, "doc": name, "family": fam, "unpack": unpack, "env": True, "again": spelling == name})
         # data home resolution without the environment variable, and unknown names
         docs = doc_names()
         for fam, name in docs[::9]:
@@ -149,6 +151,20 @@ Definition rejected_obs (ds : string) (e : exn) : bool := match resolve ds with 
                     o = {"exc": exn_name(e), "exc_msg": str(e)[:160]}
                 o["downloads"] = [(u, os.path.basename(p), os.path.relpath(p, sb.root)) for u, p in sb.downloads]
                 o["listing"] = sb.listing()
+                if c.get("again") and "exc" not in o:
+                    try:
+                        r2 = load_dataset(c["name"], unpack_dataset_columns=not c["unpack"])
+                        if not c["unpack"]:
+                            ok2 = isinstance(r2, tuple) and len(r2) == 2
+                            arr2 = np.column_stack(r2) if ok2 else np.asarray(r2)
+                        else:
+                            ok2 = isinstance(r2, np.ndarray)
+                            arr2 = np.asarray(r2) if ok2 else np.zeros((0, 0))
+                        o["again"] = {"container_ok": bool(ok2), "kind": type(r2).__name__,
+                                      "same_data": bool(arr2.shape == arr.shape and np.array_equal(arr2, arr)),
+                                      "downloads": len(sb.downloads) - len(o["downloads"])}
+                    except Exception as e:
+                        o["again"] = {"exc": exn_name(e), "exc_msg": str(e)[:160]}
                 return o
 
     def coq(self, c, o):
@@ -188,6 +204,14 @@ Definition rejected_obs (ds : string) (e : exn) : bool := match resolve ds with 
             fail("malformed", "result has shape %s dtype %s finite=%s" % (o["shape"], o["dtype"], o["finite"]))
         if c["unpack"] and not o["tuple"]:
             fail("unpack", "unpacking requested but a %s was returned" % o["kind"])
+        ag = o.get("again")
+        if ag is not None:
+            if "exc" in ag:
+                fail("second-request", "asking again with unpack=%s raised %s: %s" % (not c["unpack"], ag["exc"], ag.get("exc_msg")))
+            elif not ag["container_ok"] or not ag["same_data"]:
+                fail("second-request", "asking again with unpack=%s returned a %s (same data: %s)" % (not c["unpack"], ag["kind"], ag["same_data"]))
+            elif ag["downloads"]:
+                fail("second-request", "asking again downloaded %d more file(s) although the dataset was cached" % ag["downloads"])
         if c["family"] == "sandvine":
             if o["downloads"]:
                 fail("bundled-downloads", "bundled dataset triggered a download")
